@@ -121,7 +121,7 @@ def gen_labels(rng, big):
         n = rng.randrange(5, 14)
     else:
         n = rng.randrange(14, 31)
-    layout = rng.choice(["dense", "ties", "half", "spread", "mixed", "dense", "ties", "one"])
+    layout = rng.choice(["dense", "ties", "half", "spread", "mixed", "dense", "ties", "one", "hashy"])
     wpal = rng.choice([[10, 20, 50], [50], [5.5, 12.5, 40], [3, 7.25, 33.3], [1, 2, 3], [60, 120, 300],
                        [24.9, 28.1, 18.3, 17.3], [0.1, 0.7, 1.3]])
     base = rng.choice([0, 0, 100, -50, 250.5, -5, -3])
@@ -129,7 +129,10 @@ def gen_labels(rng, big):
     pos2w = {}
     labels = []
     for _ in range(n):
-        if layout == "one":
+        if layout == "hashy":
+            # small integers around -1 / -2 (equal hash() in CPython), 0 and 1
+            p = rng.choice([-2, -1, -1, -2, 0, 1, 3, 6, 10, 15])
+        elif layout == "one":
             p = base + 7
         elif layout == "dense":
             p = base + rng.randrange(0, max(2, span // 8))
@@ -248,7 +251,18 @@ def gen_plan(rng, tier):
             widths = {p: w for p, w in twin}
             j = rng.randrange(len(twin))
             how = rng.random()
-            if how < 0.6:
+            special = [k for k, t in enumerate(twin) if t[0] in (-1, -2)]
+            if how < 0.45 and special:
+                # -1 <-> -2: values with equal hash() in CPython
+                j = rng.choice(special)
+                newp = -3 - twin[j][0]
+                twin[j] = [newp, widths.get(newp, twin[j][1])]
+            elif how < 0.35:
+                # some positions narrowed to the default stub width: the twin's labels
+                # look like the other set's stubs
+                chosen = set(rng.sample(sorted(widths), max(1, len(widths) // 2)))
+                twin = [[p, 1 if p in chosen else w] for p, w in twin]
+            elif how < 0.6:
                 newp = twin[j][0] + rng.choice([1, -1])
                 twin[j] = [newp, widths.get(newp, twin[j][1])]
             elif how < 0.8 and len(twin) > 1:
